@@ -8,7 +8,9 @@ Logs are newest first.
 import SwV.Model.C13
 import SwV.Spec.C13
 import SwV.Lemmas.C13
+import SwV.Lemmas.C13W
 import SwV.Gen.C13
+import SwV.Gen.C13Hb
 
 namespace SwV.Props.C13
 open SwV.Model.C13 SwV.Spec.C13 SwV.Lemmas.C13
@@ -138,19 +140,60 @@ theorem mem_leader_change_witness :
    The "above every reported max key" half fails (`etcd_setmax_equals_witness`,
    `etcd_report_ignored_witness`).  The disjointness half holds: -/
 
-/-- ALL interleavings of any number of EtcdSequencer instances over one etcd value — any schedule of
-    key/value steps, any injected etcd failures, constructor runs (`.new`, leader changes) and `SetMax`
-    included: the ranges handed out are pairwise disjoint.
+/-- UNBOUNDED ARITHMETIC.  ALL interleavings of any number of EtcdSequencer instances over one etcd value — any
+    schedule of key/value steps, any injected etcd failures, constructor runs (`.new`, leader changes) and
+    `SetMax` included: the ranges handed out are pairwise disjoint.  This is about the machines `start`/`kvStep`
+    that compute with naturals; the Go code computes in uint64 — see `etcd_ranges_disjoint_partial` below.
     The only excluded thing: a failed reservation (`Ret.failKey`, which the real code returns as key 0,
-    finding class EtcdSequencer.NextFileId/etcd-error-returns-key-0) is not logged as a range
-    (see `logOut`). -/
-theorem etcd_ranges_disjoint_partial (evs : List EEv) : DisjLog (erun ({}, []) evs).2 :=
+    finding class EtcdSequencer.NextFileId/etcd-error-returns-key-0) is not logged as a range (see `logOut`). -/
+theorem etcd_ranges_disjoint_unbounded (evs : List EEv) : DisjLog (erun ({}, []) evs).2 :=
   (erun_inv evs {} [] einv_init).disj
 
-/-- … and every range handed out lies below the value stored in etcd -/
-theorem etcd_ranges_below_etcd (evs : List EEv) :
-    ∀ j a c, Obs.issue j a c ∈ (erun ({}, []) evs).2 → a + c ≤ (erun ({}, []) evs).1.kv.getD 0 :=
-  (erun_inv evs {} [] einv_init).below
+/- FULL-STRENGTH statement for the uint64 machines the correspondence check runs against the Go code
+   (FALSE of the model and of the code, `etcd_wrap_witness`):
+
+     theorem etcd_ranges_disjoint (evs : List EEv) : DisjLog (erunW ({}, []) evs).2 -/
+
+/-- UINT64 ARITHMETIC (`startW`/`kvStepW` = what the Go code computes).  The same for every schedule in which
+    no uint64 addition wraps — `ENoWrap`, an explicit decidable predicate evaluated along the run:
+    `currentSeqId + count`, `DefaultEtcdSteps + count` at every `NextFileId(count)`, `prevSeqValue + step` and
+    `currentSeqId + count` at every compare-and-swap of `batchGetSequenceFromEtcd`, all ≤ 2^64-1.
+    (`count` is client supplied, so the excluded schedules are reachable: finding class
+    EtcdSequencer.NextFileId/counter-wraps-uint64.) -/
+theorem etcd_ranges_disjoint_partial (evs : List EEv) (hw : ENoWrap ({}, []) evs) : DisjLog (erunW ({}, []) evs).2 := by
+  rw [erunW_eq evs _ hw]
+  exact (erun_inv evs {} [] einv_init).disj
+
+/-- … and under the same hypothesis the uint64 machines ARE the unbounded ones, so every theorem below transfers -/
+theorem etcd_uint64_run_eq (evs : List EEv) (st : ESt × List Obs) (hw : ENoWrap st evs) : erunW st evs = erun st evs :=
+  erunW_eq evs st hw
+
+/-- the schedule of `etcd_wrap_witness`: one key, then `NextFileId(2^64-1)`, then one key -/
+def etcdWrapEvs : List EEv :=
+  [.start 0 (.new 0), .kv 0 false, .kv 0 false, .kv 0 false,
+   .start 0 (.next 1), .kv 0 false, .kv 0 false,
+   .start 0 (.next (W - 1)), .start 0 (.next 1)]
+
+theorem etcd_wrap_log : (erunW ({}, []) etcdWrapEvs).2 = [.issue 0 1 1, .issue 0 2 (W - 1), .issue 0 1 1] := by
+  decide
+
+/-- WHAT HAPPENS AT THE BOUNDARY: with the window [2,501), `NextFileId(2^64-1)` computes
+    `2 + (2^64-1) = 1 (mod 2^64) < 501`, serves the request from the local window and leaves
+    `currentSeqId = 1`: key 1 is handed out a second time. -/
+theorem etcd_wrap_witness : ¬ DisjLog (erunW ({}, []) etcdWrapEvs).2 := by
+  rw [etcd_wrap_log]
+  intro h
+  have := h.1 0 1 1 (by simp)
+  revert this
+  decide
+
+/-- … and the witness is exactly an excluded schedule -/
+theorem etcd_wrap_witness_is_excluded : ¬ ENoWrap ({}, []) etcdWrapEvs := by decide
+
+/-- non-vacuity of `etcd_ranges_disjoint_partial`: two instances racing on the compare-and-swap -/
+example : ENoWrap ({}, []) [.start 0 (.new 0), .kv 0 false, .kv 0 false, .kv 0 false,
+      .start 1 (.new 1), .kv 1 false, .start 0 (.next 1), .start 1 (.next 1),
+      .kv 0 false, .kv 1 false, .kv 0 false, .kv 1 false, .kv 1 false, .kv 1 false] := by decide
 
 /-- the same from any state satisfying the invariant (what a step relies on, and what it gives back) -/
 theorem etcd_step_preserves (s : ESt) (log : List Obs) (ev : EEv) (h : EInv s log) :
@@ -275,6 +318,57 @@ theorem snowflake_count_ignored_witness (a : Nat) : overlap a 4 (a + 1) 4 = true
   simp
   omega
 
+/-! ### C'. the volume-id judge is the property -/
+
+/-- what the driver tests on every returned volume id (`vidJudge`: not returned before) is exactly the step of
+    `Distinct`, and a list passes the judge id by id iff it is `Distinct` -/
+theorem vid_judge_is_distinct (ids : List Nat) (id : Nat) :
+    (Distinct (id :: ids) ↔ vidJudge ids id = true ∧ Distinct ids) ∧ (vidJudgeAll (id :: ids) = true ↔ Distinct (id :: ids)) :=
+  ⟨vidJudge_iff ids id, vidJudgeAll_iff (id :: ids)⟩
+
+example : vidJudge [3, 2, 1] 4 = true ∧ vidJudge [3, 2, 1] 2 = false := by decide
+
+/-! ### E. a heartbeat on a new leader is two steps: `SetMax`, THEN volume registration -/
+
+/-- With the order of `SendHeartbeat` (`hbOrder` = raise the sequencer, then register the volumes) an assign that
+    runs before, between or after the two steps and lands on one of the heartbeat's volumes gets a key ABOVE the
+    heartbeat's max key (every key in use in those volumes is ≤ it): before and between the volume is not pickable
+    yet, afterwards the sequencer has been raised.  (`maxFileKey + 1 < 2^64`: otherwise finding
+    MemorySequencer.SetMax/wraps-to-zero.) -/
+theorem hb_assign_safe_in_order (hb : Heartbeat) (s s' : MSt) (k vid count key : Nat)
+    (hnew : ∀ v ∈ hb.vols, v ∉ s.writable) (hv : vid ∈ hb.vols) (hw : hb.maxFileKey + 1 < W)
+    (h : assignAfter hbOrder hb s k vid count = some (key, s')) : hb.maxFileKey < key := by
+  have hnot : vid ∉ s.writable := hnew vid hv
+  unfold assignAfter hbOrder assign at h
+  match k with
+  | 0 =>
+    simp at h
+    exact absurd h.1 hnot
+  | 1 =>
+    simp [hbStep] at h
+    exact absurd h.1 hnot
+  | k + 2 =>
+    simp [hbStep, Mem.next] at h
+    have := mem_setMax_gt s.seq hb.maxFileKey hw
+    omega
+
+/-- FULL statement for the opposite order is false: register first, and an assign between the two steps hands
+    out key 1 for volume 7 although the volume server reported keys up to 1000000 in use -/
+theorem hb_swapped_order_witness :
+    (assignAfter [.register, .setMax] ⟨1000000, [7]⟩ ⟨Mem.new, []⟩ 1 7 1).map (·.1) = some 1 := by decide
+
+/-- … for every new leader whose sequencer is still at or below the reported max -/
+theorem hb_swapped_order_unsafe (hb : Heartbeat) (s : MSt) (vid count : Nat) (hv : vid ∈ hb.vols)
+    (hc : s.seq.counter ≤ hb.maxFileKey) :
+    ∃ key s', assignAfter [.register, .setMax] hb s 1 vid count = some (key, s') ∧ key ≤ hb.maxFileKey := by
+  refine ⟨s.seq.counter, { seq := (s.seq.next count).2, writable := s.writable ++ hb.vols }, ?_, hc⟩
+  unfold assignAfter assign
+  simp [hbStep, hv, Mem.next]
+
+/-- non-vacuity of `hb_assign_safe_in_order`: after both steps the assign succeeds, above the reported max -/
+example : (assignAfter hbOrder ⟨1000000, [7]⟩ ⟨Mem.new, []⟩ 2 7 1).map (·.1) = some 1000001 := by decide
+example : assignAfter hbOrder ⟨1000000, [7]⟩ ⟨Mem.new, []⟩ 1 7 1 = none := by decide
+
 /-! ### bridges: the source the models were written from (a source edit breaks these obligations) -/
 
 theorem bridge_DefaultEtcdSteps : SwV.Gen.C13.DefaultEtcdSteps = (DefaultEtcdSteps : Int) := by decide
@@ -297,5 +391,19 @@ theorem bridge_src_UpAdjustMaxVolumeId : SwV.Gen.C13.src_UpAdjustMaxVolumeId = "
 /-- the growth lock assumed by `vids_distinct` (`Serial`): GrowByCountAndType holds vg.accessLock around findAndGrow → NextVolumeId -/
 theorem bridge_src_GrowByCountAndType : SwV.Gen.C13.src_GrowByCountAndType = "6b9266a38f8e879b" := by decide
 theorem bridge_src_findAndGrow : SwV.Gen.C13.src_findAndGrow = "a8da4b07174c9366" := by decide
+
+/-- which step of the heartbeat model a call of the receive loop is -/
+def stepOfCall : String → HbStep
+  | "SetMax" => .setMax
+  | _ => .register
+
+/-- the step order of the heartbeat model is the call order in `MasterServer.SendHeartbeat`: `Sequence.SetMax` is the
+    FIRST of the watched calls and an unconditional statement of the receive loop (depth 0); every call that makes
+    volumes pickable comes after it -/
+theorem bridge_hb_order :
+    SwV.Gen.C13Hb.hbCalls.head? = some ("SetMax", 0) ∧
+    (SwV.Gen.C13Hb.hbCalls.map (fun c => stepOfCall c.1)).eraseDups = hbOrder ∧
+    SwV.Gen.C13Hb.hbCalls = [("SetMax", 0), ("IncrementalSyncDataNodeRegistration", 1), ("SyncDataNodeRegistration", 1)] := by
+  decide
 
 end SwV.Props.C13
